@@ -87,6 +87,31 @@ def op_name(op):
     return op[0]
 
 
+_fin = {}
+
+
+def fin_cls():
+    """Harness renderable whose `_finalize_render_data_` hook is a fault point: the hook does its work (it is
+    logged) and THEN raises when armed - 'releasing a resource failed'."""
+    if not _fin:
+        ns = M.lib()["ns"]
+
+        class FinR(ns.TextR):
+            @classmethod
+            def _finalize_render_data_(cls, render_data):
+                owner = ns.owners.get(id(render_data))
+                super()._finalize_render_data_(render_data)
+                if owner is not None:
+                    owner.n_finalize = getattr(owner, "n_finalize", 0) + 1
+                    if owner.fault:
+                        e = owner.fault("finalize", owner.n_finalize)
+                        if e is not None:
+                            raise e
+
+        _fin["cls"] = FinR
+    return _fin["cls"]
+
+
 class Shim:
     def __init__(self, r, it):
         self.r, self.it = r, it
@@ -114,9 +139,9 @@ class Scn:
         self.tty = tty
         n = cfg["n"]
         if isinstance(n, str):
-            self.r = lb["ns"].make(R.FrameCount.INDEFINITE, M.SIZE0, 100, stream_len=int(n[1:]))
+            self.r = lb["ns"].make(R.FrameCount.INDEFINITE, M.SIZE0, 100, stream_len=int(n[1:]), cls=fin_cls())
         else:
-            self.r = lb["ns"].make(n, M.SIZE0, 100)
+            self.r = lb["ns"].make(n, M.SIZE0, 100, cls=fin_cls())
         self.it = None
         self.it_state = None        # None | "open" | "closed" | "zombie" (expected, from the history)
         self.gen = 0                # generation of the current iterator
@@ -126,12 +151,12 @@ class Scn:
                                     #   owner= "caller" | generation of the owning iterator, caller_fin=bool)
         self.budget = cfg["faults"]
         self.fired = False
-        self.calls = (0, 0, 0, 0)
+        self.calls = (0, 0, 0, 0, 0)
 
     # ---------------------------------------------------------------- fault plumbing
     def arm(self, fault):
         r = self.r
-        br, bg = r.n_render, r.n_getdata
+        base = dict(render=r.n_render, getdata=r.n_getdata, finalize=getattr(r, "n_finalize", 0))
         self.fired = False
         if fault is None or fault[0] in ("validate", "stdout", "termsize"):
             r.fault = None
@@ -140,7 +165,7 @@ class Scn:
         kind, j, exc = fault
 
         def hook(k, n):
-            if not self.fired and k == kind and n - (br if k == "render" else bg) == j:
+            if not self.fired and k == kind and n - base[k] == j:
                 self.fired = True
                 return exc_of(exc)
             return None
@@ -195,6 +220,11 @@ class Scn:
             return real_gts()
 
         RM.get_terminal_size = gts
+        f0 = getattr(r, "n_finalize", 0)
+        fin_fault = fault is not None and fault[0] == "finalize"
+        old_unraisable = sys.unraisablehook
+        if fin_fault:                # a hook failing inside __del__ is reported by the interpreter, not raised
+            sys.unraisablehook = lambda *a: None
         out = ("ok",)
         try:
             if k == "render":
@@ -278,8 +308,8 @@ class Scn:
             elif k == "drop":
                 self.drop_iterator()
             elif k == "cdfin":
-                r.datas[self.cd].finalize()
                 self.rec[self.cd]["caller_fin"] = True
+                r.datas[self.cd].finalize()
             else:
                 raise world.HarnessError(f"unknown op {op!r}")
         except world.HarnessError:
@@ -291,13 +321,18 @@ class Scn:
             del e
         finally:
             RM.get_terminal_size = real_gts
+            sys.unraisablehook = old_unraisable
             r.fault = None
             if fault is not None and fault[0] == "validate":
                 self.tty.cols, self.tty.rows = TERM
             if fault is not None and fault[0] == "stdout":
                 self.fired = self.stdout.plan.fired
                 self.stdout.plan = None
-        self.calls = (r.n_render - r0, r.n_getdata - g0, self.stdout.npoints - p0, ncalls[0])
+        if fin_fault and self.fired and self.it is not None and k in ("next", "close"):
+            # close() was cut short by the failing hook: nothing about the iterator's state is demanded any more
+            self.it_state = "zombie"
+        self.calls = (r.n_render - r0, r.n_getdata - g0, self.stdout.npoints - p0, ncalls[0],
+                      getattr(r, "n_finalize", 0) - f0)
         # data objects the library created inside this operation
         for i in range(n0, len(r.datas)):
             if k == "iter":
@@ -368,6 +403,8 @@ class Scn:
             sig.update(kw)
             return sig, f"{what} [cfg={self.cfg}, op={op}, fault={fault}]"
 
+        if fault is not None and fault[0] == "finalize":
+            return None          # only the data-level clauses (hook ran at most once, flag set) are demanded
         if state_before == "closed":
             if k == "next" and out != ("stop",):
                 return v("closed-next", f"next() on a finished iterator: {out}", got=M.res_sig(out))
@@ -387,7 +424,7 @@ class Scn:
             return v("stale-data-accepted", f"_from_render_data_ with finalized data: {out}", got=M.res_sig(out))
         if not self.fired and out[0] == "raise" and not (
                 (k == "seekbad" and out[1] == "ValueError") or k in ("frd_stale", "badargs")
-                or (state_before == "closed" and k in ("next", "seek0", "seekbad", "size", "close"))
+                or (state_before in ("closed", "zombie") and k in ("next", "seek0", "seekbad", "size", "close"))
                 or (self.cfg["n"] == 1 and k in ("iter", "frd") and out[1] == "ValueError")):   # not animated
             return v("exception", f"{k} raised {out[1]} without any fault", got=M.res_sig(out))
         return None
@@ -406,7 +443,10 @@ class Scn:
                                   rec.get("caller_fin"), c, want, i == self.it_data, i == self.cd))
         itc = None
         if self.it is not None:
-            itc = (M.impl_canon(Shim(self.r, self.it)), self.it._finalize_data)
+            try:
+                itc = (M.impl_canon(Shim(self.r, self.it)), self.it._finalize_data)
+            except AttributeError:       # an iterator whose close() was cut short (no `_iterator` any more)
+                itc = ("broken", self.it._closed, sorted(k for k in self.it.__dict__))
         return h64(repr((itc, self.it_state, self.budget, sorted(unsettled, key=repr), self.r.stream_pos, self.r.tell())))
 
 
@@ -424,9 +464,12 @@ def ops_of(cfg):
 def fault_variants(op, calls, excs, stdout_faults=False, modes=("instead", "after")):
     """Every fault position inside *op* given the calls its fault-free run made."""
     out = []
-    nr, ng, npoints, nts = calls
+    nr, ng, npoints, nts, nfin = calls
     if op[0] == "badargs":
         return out
+    for j in range(1, nfin + 1):           # the j-th finalization hook run by the operation fails after its work
+        for x in ("OSError", "KeyboardInterrupt"):
+            out.append(("finalize", j, x))
     for j in range(1, nts + 1):            # the j-th terminal-size query of the operation fails
         for x in ("OSError", "KeyboardInterrupt"):
             out.append(("termsize", j, x))
@@ -608,6 +651,8 @@ def run(ctx):
         operations=[list(o) for o in ops_of(dict(rich=True))],
         fault_kinds=["k-th _render_ inside the operation", "k-th _get_render_data_ inside the operation",
                      "size validation of draw (terminal 1x1)",
+                     "k-th _finalize_render_data_ hook inside the operation raises after doing its work (OSError / "
+                     "KeyboardInterrupt): the hook must still run at most once per data object, `finalized` must be set",
                      "k-th terminal-size query of _init_render_ inside the operation (OSError / KeyboardInterrupt)",
                      "k-th write / flush / sleep of a draw on the virtual stdout, instead / after, KeyboardInterrupt / "
                      "OSError (configurations with stdout_faults)"],
